@@ -1,6 +1,7 @@
 import RsslVerif.Lemmas.ConstEvalNoPanic
 import RsslVerif.Gen.EvalSites
 import RsslVerif.Lemmas.ConstEvalFloatRound
+import RsslVerif.Lemmas.ConstPosEnum
 /-!
 # C13 — compile-time constant evaluation matches run-time semantics
 
@@ -245,5 +246,191 @@ theorem positions_use_eval :
     (RsslVerif.Gen.EvalSites.evalSites.filter fun s => s.2.2.2.2.2).map (fun s => s.2.1)
       = ["parse_rootdefinition_enum"] := by
   decide
+
+/-! ## what a position does with the evaluated constant: the boundary between untyped literals and typed values
+
+`Model.ConstPos` reads the conversions and guards of every site from `Gen.PosTable` (re-extracted on every run from
+`Constant::to_uint64` / `to_f32`, `parse_declarator`, `add_stage`, `extract_uint32`, `parse_expr_as_u32`,
+`parse_statement_attribute`, `parse_statement`, `parse_and_evaluate_constant_expression`, `parse_rootdefinition_enum`,
+`end_enum`). -/
+
+open RsslVerif.Model.ConstPos RsslVerif.Lemmas.ConstPos RsslVerif.Gen.PosTable
+
+/-- tie to the source: the reviewed reading of the five count-taking sites.  Array sizes unwrap an enum, refuse 0 and
+    take 64 bits; `numthreads`, unsigned pipeline / sampler properties and `bind_group` / `vk::binding` take 32 bits
+    (0 allowed, enums not unwrapped); `[unroll(n)]` takes 64 bits; `WriteMask` 8 bits. -/
+theorem position_rules_as_reviewed :
+    arraySize = ⟨true, true, false⟩ ∧ numthreads = ⟨false, false, true⟩ ∧ pipelineUint = ⟨false, false, true⟩ ∧
+    exprAsU32 = ⟨false, false, true⟩ ∧ unroll = ⟨false, false, false⟩ ∧ writeMaskMax = 255 := by decide
+
+/-- **Counts (array sizes, `numthreads`, `unroll`, `bind_group`, `vk::binding`, unsigned properties).**
+    Whatever the kind of the constant — untyped literal, `int`, `uint`, `bool`, for array sizes also an enum — an
+    accepted count `n` is the integer value of what the specification says the expression evaluates to, and it lies
+    in the range of the place (`[0, 2^64)`, not 0 where 0 is refused, `< 2^32` where 32 bits are required). -/
+theorem position_count_agrees (r : SizeRule) (e : Expr) (hwf : wfE e = true) (n : Int)
+    (h : sizeSite r (eval e) = .count n) :
+    ∃ v, RsslVerif.Spec.HlslConst.eval e = some v ∧ countOf r v = some n ∧ 0 ≤ n ∧ n ≤ 2 ^ 64 - 1 ∧
+      (r.rejectZero = true → n ≠ 0) ∧ (r.max32 = true → n ≤ 2 ^ 32 - 1) := by
+  cases hev : eval e with
+  | error err => cases err <;> simp [hev, sizeSite] at h
+  | ok v =>
+    obtain ⟨h1, h2⟩ := eval_agrees e hwf v hev
+    rw [hev] at h
+    exact ⟨v, h1, sizeSite_sound r v h2 n h⟩
+
+/-- ... and every integer-like value that fits the place is accepted with exactly that count (no kind is refused
+    that has an in-range integer value; out-of-range values, floats and non-constant expressions are refused). -/
+theorem position_count_complete (r : SizeRule) (e : Expr) (hwf : wfE e = true) (v : Constant) (n : Int)
+    (hev : eval e = .ok v) (hc : countOf r v = some n) (h0 : 0 ≤ n) (h1 : n ≤ 2 ^ 64 - 1)
+    (hz : r.rejectZero = true → n ≠ 0) (hm : r.max32 = true → n ≤ 2 ^ 32 - 1) :
+    sizeSite r (eval e) = .count n := by
+  rw [hev]
+  exact sizeSite_complete r v (eval_agrees e hwf v hev).2 n hc h0 h1 hz hm
+
+/-- a rejection is justified by the value: zero, beyond 32 bits, or no integer value in `[0, 2^64)` at all -/
+theorem position_count_rejections (r : SizeRule) (e : Expr) (hwf : wfE e = true) (v : Constant) (hev : eval e = .ok v) :
+    (sizeSite r (eval e) = .zeroSize → countOf r v = some 0) ∧
+    (sizeSite r (eval e) = .outOfRange → ∃ n, countOf r v = some n ∧ 2 ^ 32 - 1 < n) ∧
+    (sizeSite r (eval e) = .notConstant →
+      countOf r v = none ∨ ∃ n, countOf r v = some n ∧ (n < 0 ∨ 2 ^ 64 - 1 < n)) := by
+  rw [hev]
+  exact sizeSite_reject r v (eval_agrees e hwf v hev).2
+
+/-- non-vacuity: `float a[(int)-1]`, `a[0]`, `a[4294967296]`, `a[E0C]` (enum value 5), `numthreads(4294967296, ..)` -/
+example : sizeSite arraySize (eval (.cast (.scalar .Int32) (.lit (.intLit (-1))))) = .notConstant ∧
+    sizeSite arraySize (eval (.lit (.intLit 0))) = .zeroSize ∧
+    sizeSite arraySize (eval (.lit (.intLit 4294967296))) = .count 4294967296 ∧
+    sizeSite arraySize (eval (.enumValue 0 (.int32 5))) = .count 5 ∧
+    sizeSite numthreads (eval (.enumValue 0 (.int32 5))) = .notConstant ∧
+    sizeSite numthreads (eval (.lit (.intLit 4294967296))) = .outOfRange := by decide
+
+/-- **Case labels and const initialisers** keep the evaluated constant: the recorded constant is the specified value. -/
+theorem case_label_value (e : Expr) (hwf : wfE e = true) (c : Constant) (h : caseSite (eval e) = .stored c) :
+    RsslVerif.Spec.HlslConst.eval e = some c := by
+  cases hev : eval e with
+  | error err => cases err <;> simp [hev, caseSite] at h
+  | ok v =>
+    have ha := (eval_agrees e hwf v hev).1
+    rw [hev, caseSite_ok] at h
+    cases h
+    exact ha
+
+theorem const_initialiser_value (isConst : Bool) (e : Expr) (hwf : wfE e = true) (c : Constant)
+    (h : constInitSite isConst (eval e) = .stored c) :
+    isConst = true ∧ RsslVerif.Spec.HlslConst.eval e = some c := by
+  unfold constInitSite at h
+  cases isConst with
+  | false => simp [constInitNeedsConst] at h
+  | true =>
+    simp only [constInitNeedsConst, Bool.not_true, Bool.and_false] at h
+    cases hev : eval e with
+    | error err => cases err <;> simp [hev] at h
+    | ok v =>
+      have ha := (eval_agrees e hwf v hev).1
+      simp [hev] at h
+      cases h
+      exact ⟨rfl, ha⟩
+
+/-- **Template value arguments** are bound to the specified value of the argument expression, kind included: `bool`
+    and integer kinds only. -/
+theorem template_argument_value (e : Expr) (hwf : wfE e = true) (c : Constant) (h : templateSite (eval e) = .stored c) :
+    RsslVerif.Spec.HlslConst.eval e = some c ∧
+    (c.kind = .Bool ∨ c.kind = .IntLiteral ∨ c.kind = .Int32 ∨ c.kind = .UInt32 ∨ c.kind = .Int64 ∨ c.kind = .UInt64) := by
+  cases hev : eval e with
+  | error err => cases err <;> simp [hev, templateSite] at h
+  | ok v =>
+    have ha := (eval_agrees e hwf v hev).1
+    rw [hev, templateSite_ok] at h
+    split at h
+    · rename_i hk
+      cases h
+      exact ⟨ha, hk⟩
+    · cases h
+
+/-- **... but not converted to the declared parameter type** — the full statement "the parameter has the value HLSL
+    defines" is *false* on the pinned source; witnesses (replayed on the real compiler as `C13.pos template -1` and
+    `C13.pos template_bool 2`, known finding): `template<uint N>` instantiated with `-1` binds the literal `-1` where
+    the conversion to `uint` gives `4294967295`; `template<bool B>` instantiated with `2` binds `2`, not `true`. -/
+theorem template_argument_not_converted :
+    templateSite (eval (.lit (.intLit (-1)))) = .stored (.intLit (-1)) ∧
+    RsslVerif.Spec.HlslConst.castScalar .UInt32 (.intLit (-1)) = some (.uint32 4294967295) ∧
+    templateSite (eval (.lit (.intLit 2))) = .stored (.intLit 2) ∧
+    RsslVerif.Spec.HlslConst.castScalar .Bool (.intLit 2) = some (.bool true) :=
+  templateSite_does_not_convert
+
+/-- **Float-valued properties (`MinLOD`, `MaxLOD`)**: an accepted value is the constant converted to `float` by the
+    HLSL rules (32-bit kinds; 64-bit integer constants do not arise from source). -/
+theorem lod_property_value_partial (e : Expr) (hwf : wfE e = true) (b : Nat) (h : lodSite (eval e) = .lod b) :
+    ∃ v, RsslVerif.Spec.HlslConst.eval e = some v ∧
+      (v.kind ≠ .Int64 ∧ v.kind ≠ .UInt64 → RsslVerif.Spec.HlslConst.castScalar .Float32 v = some (.float32 b)) := by
+  cases hev : eval e with
+  | error err => cases err <;> simp [hev, lodSite] at h
+  | ok v =>
+    simp only [hev, lodSite] at h
+    cases ht : toF32 v with
+    | none => simp [ht] at h
+    | some b' =>
+      simp only [ht] at h
+      cases h
+      exact ⟨v, (eval_agrees e hwf v hev).1, fun h64 => toF32_sound v h64 b ht⟩
+
+/-- what is missing from `lod_property_value_partial` is completeness, and it is *false* on the pinned source
+    (known finding, replayed as `C13.pos minlod 0.5` and `C13.pos minlod (int)-1`): an untyped float literal and
+    a negative `int` are refused although they convert to `float`. -/
+theorem lod_property_refuses_valid_values (bits : Nat) (v : Int) (hv : v < 0) :
+    lodSite (.ok (.floatLit bits)) = .notConstant ∧ lodSite (.ok (.int32 v)) = .notConstant ∧
+    (RsslVerif.Spec.HlslConst.castScalar .Float32 (.floatLit bits)).isSome = true ∧
+    (RsslVerif.Spec.HlslConst.castScalar .Float32 (.int32 v)).isSome = true := by
+  have a := toF32_refuses_float_literal bits
+  have b := toF32_refuses_negative_int v hv
+  simp [lodSite, a.1, b.1, a.2, b.2]
+
+/-! ## enum definitions -/
+
+/-- **Enum values have C semantics, and the underlying type is deduced from the range.**  For every list of
+    enumerators (any length; initialisers are arbitrary well-formed trees, possibly built from earlier enumerators,
+    which the type checker inlines as literals): if the definition is accepted with underlying type `u` and values
+    `out`, there are integers `vs` with `EnumSeq none ms vs` — an initialiser gives the value the specification
+    defines for it (an enum-typed one through its underlying type), the first enumerator without initialiser is 0,
+    any other is its predecessor plus one — such that `out` is `vs` represented in `u` without wrap-around, and `u`
+    is `int` exactly when 0 and every value fit `int`, otherwise `uint` (and then they fit `uint`). -/
+theorem enum_values_c_semantics (ms : List Member) (hw : membersWf ms = true) (u : Scalar) (out : List Constant)
+    (h : defineEnum ms = .ok (u, out)) :
+    ∃ vs : List Int, EnumSeq none ms vs ∧ out = vs.map (mk u) ∧
+      ((u = .Int32 ∧ AllIn (-(2 ^ 31)) (2 ^ 31 - 1) vs) ∨
+       (u = .UInt32 ∧ ¬ AllIn (-(2 ^ 31)) (2 ^ 31 - 1) vs ∧ AllIn 0 (2 ^ 32 - 1) vs)) :=
+  defineEnum_spec ms hw u out h
+
+/-- the range rejection (`enum range .. can not fit in any type`) happens only when the C values fit neither `int`
+    nor `uint` -/
+theorem enum_rejected_only_out_of_range (ms : List Member) (hw : membersWf ms = true) (lo hi : Int)
+    (h : defineEnum ms = .error (.cannotDeduce lo hi)) :
+    ∃ vs : List Int, EnumSeq none ms vs ∧ ¬ AllIn (-(2 ^ 31)) (2 ^ 31 - 1) vs ∧ ¬ AllIn 0 (2 ^ 32 - 1) vs :=
+  defineEnum_cannotDeduce ms hw lo hi h
+
+/-- **An enum definition never panics**: not when the successor of `INT_MAX` / `UINT_MAX` / the largest literal is
+    needed (that is `EnumValueOverflow`), not on a `bool` enumerator, not in the range computation or the conversion
+    to the underlying type.  Hypotheses (`membersOk`, executable, evaluated by the model on every definition of the
+    correspondence run): the initialisers satisfy the hypotheses of `consteval_no_panic`, and an initialiser of
+    integer / enum type evaluates, if at all, to an integer-like constant. -/
+theorem enum_no_panic (ms : List Member) (hok : membersOk ms = true) (msg : String) :
+    defineEnum ms ≠ .error (.panic msg) :=
+  defineEnum_noPanic ms hok msg
+
+/-- non-vacuity: `enum { A, B, C = 10, D, E = A + 2, F }` (the reference to `A` is the literal the type checker
+    inlines) has the values 0 1 10 11 2 3 in `int`; `enum { A = 2147483647, B }` continues in `uint`;
+    `enum { A = (int)2147483647, B }` is an overflow error, `enum { A = -1, B = 4294967295u }` a range error;
+    the hypotheses hold for them -/
+example :
+    defineEnum [none, none, some (.scalar .IntLiteral, .lit (.intLit 10)), none,
+                some (.scalar .Int32, .op .Add (.cons (.lit (.int32 0)) (.cons (.cast (.scalar .Int32) (.lit (.intLit 2))) .nil))), none]
+      = .ok (.Int32, [.int32 0, .int32 1, .int32 10, .int32 11, .int32 2, .int32 3]) ∧
+    defineEnum [some (.scalar .IntLiteral, .lit (.intLit 2147483647)), none]
+      = .ok (.UInt32, [.uint32 2147483647, .uint32 2147483648]) ∧
+    defineEnum [some (.scalar .Int32, .cast (.scalar .Int32) (.lit (.intLit 2147483647))), none] = .error (.overflow 1) ∧
+    defineEnum [some (.scalar .IntLiteral, .lit (.intLit (-1))), some (.scalar .UInt32, .lit (.uint32 4294967295))]
+      = .error (.cannotDeduce (-1) 4294967295) ∧
+    membersOk [some (.scalar .Int32, .cast (.scalar .Int32) (.lit (.intLit 2147483647))), none] = true ∧
+    membersWf [some (.scalar .IntLiteral, .lit (.intLit 2147483647)), none] = true := by decide
 
 end RsslVerif.Thm.C13
